@@ -39,19 +39,37 @@ let handle line =
                 max_headers = n_of_int (int_of_string mh); max_queue = n_of_int (int_of_string mq) } in
     let o = parse_oracle orc in
     (* counts.(i) = number of messages that existed before call i *)
-    let rec go s i segs a counts =
+    let rec go s i segs a counts left =
       match segs with
-      | [] -> ("OK:-", s, a, List.rev counts)
+      | [] -> ("OK:" ^ hex_of_bytes left, s, a, List.rev counts)
       | d :: rest ->
         let counts = List.length a :: counts in
         let ((s', a'), r) = feed lim o s (bytes_of_hex d) a in
         (match r with
-         | ROk lo -> if rest = [] then ("OK:" ^ hex_of_bytes lo, s', a', List.rev counts) else go s' (i + 1) rest a' counts
+         | ROk lo -> go s' (i + 1) rest a' counts (left @ lo)
          | RErr e -> (Printf.sprintf "ERR:%s@%d" (err_name e) i, s', a', List.rev counts)
          | RAsk (c, t) -> ("ASK:" ^ (if c then "c" else "a") ^ ":" ^ hex_of_bytes t, s', a', List.rev counts))
     in
-    let (out, s, a, counts) = go init 0 segs [] [] in
+    let (out, s, a, counts) = go init 0 segs [] [] [] in
     out ^ "#" ^ state_str s ^ "#" ^ String.concat "," (List.map string_of_int counts) ^ "#"
     ^ String.concat "|" (List.map rec_str (List.rev a))
+  | ["SPEC"; ml; mf; mh; mq; orc; stream] ->
+    let lim = { max_line = n_of_int (int_of_string ml); max_field = n_of_int (int_of_string mf);
+                max_headers = n_of_int (int_of_string mh); max_queue = n_of_int (int_of_string mq) } in
+    let sm_str (x : smsg) =
+      let m = x.s_msg in
+      Printf.sprintf "M:%s:%s:%d.%d:%s%s%s:%s:%s:%s:%s:%d" (hex_of_bytes m.m_method) (hex_of_bytes m.m_target)
+        (int_of_n m.m_vmaj) (int_of_n m.m_vmin) (b01 m.m_close) (b01 m.m_chunked) (b01 m.m_upgrade)
+        (match m.m_compression with None -> "~" | Some c -> hex_of_bytes c)
+        (if m.m_headers = [] then "~" else
+           String.concat "," (List.map (fun (k, v) -> hex_of_bytes k ^ "=" ^ hex_of_bytes v) m.m_headers))
+        (hex_of_bytes x.s_body) (csv_of_ns x.s_chunk_ends) (List.length x.s_span) in
+    let ms_str ms = String.concat "|" (List.map sm_str ms) in
+    (match spec lim (parse_oracle orc) (bytes_of_hex stream) with
+     | SAccept (ms, _) -> "ACCEPT#" ^ ms_str ms
+     | SUpgraded (ms, rest) -> "UPGRADED:" ^ hex_of_bytes rest ^ "#" ^ ms_str ms
+     | SIncomplete (ms, rest) -> "INCOMPLETE:" ^ hex_of_bytes rest ^ "#" ^ ms_str ms
+     | SReject (ms, e) -> "REJECT:" ^ err_name e ^ "#" ^ ms_str ms
+     | SAsk (c, t) -> "ASK:" ^ (if c then "c" else "a") ^ ":" ^ hex_of_bytes t)
   | _ -> "BADREQ"
 let () = serve handle
